@@ -7,6 +7,7 @@ import (
 	"encoding/json"
 	"flag"
 	"fmt"
+	"hash/fnv"
 	"os"
 	"os/exec"
 	"path/filepath"
@@ -397,7 +398,7 @@ func workerMain(d *Driver, tier string, seed int64, shard, only string) int {
 				outMu.Lock()
 				ci := int(curIdx.Load())
 				for i, it := range items {
-					if i%sn != si || i < ci || (only != "" && !strings.Contains(it.ID, only)) {
+					if shardOf(it.ID, sn) != si || i < ci || (only != "" && !strings.Contains(it.ID, only)) {
 						continue
 					}
 					msg := "not explored: the worker's memory budget was exhausted by an earlier item"
@@ -413,7 +414,7 @@ func workerMain(d *Driver, tier string, seed int64, shard, only string) int {
 	}()
 	// cost-balanced round robin: items are assigned by index
 	for i, it := range items {
-		if i%sn != si {
+		if shardOf(it.ID, sn) != si {
 			continue
 		}
 		if only != "" && !strings.Contains(it.ID, only) {
@@ -881,4 +882,17 @@ func interleave(items []Item) []Item {
 		}
 	}
 	return out
+}
+
+// shardOf: the worker an item belongs to, from its ID alone - every worker builds its own item list, and a list
+// that differs by one entry between two processes must not shift the assignment of all the others (an index-based
+// assignment silently ran some items twice and others not at all when go/ssa named one instantiation
+// ReadBasicType[byte] in one process and ReadBasicType[uint8] in another).
+func shardOf(id string, n int) int {
+	if n <= 1 {
+		return 0
+	}
+	h := fnv.New32a()
+	h.Write([]byte(id))
+	return int(h.Sum32() % uint32(n))
 }
